@@ -271,6 +271,9 @@ func (e *env) routeOp(c *hx.Ctx, method, pattern, path, db string, cc credCase, 
 		return
 	}
 	desc := fmt.Sprintf("%s %s cred=%s/%s need=%s -> status %d effects=%v", method, path, cc.class, cc.transport, nd, resp.status, uniq(eff))
+	if st != nil {
+		desc += fmt.Sprintf(" db=%s q=%q", db, st.text)
+	}
 	akey := method + " " + path
 	if cc.class == "none" && out == "pass" {
 		e.anonPass[akey] = true
@@ -346,7 +349,7 @@ func Run(c *hx.Ctx) error {
 		return explore(c)
 	}
 	logger.SetLogger(zap.NewNop())
-	c.Stats.Rule = "exhaustive product: every live (method, pattern) of the real mux (hook VerifRoutes) in 5 server configurations, plus pre-mux paths, unregistered methods and near-miss paths, x every credential case (none / malformed / unknown user / wrong password / read-only / write-only / other-database / all-privileges / no-privilege / rwuser / administrator over basic, URL, Token and bearer transports, ~80 cases) x target database; /query x 75 statement texts (every statement kind); the real authenticate through a probe route (all cases + seeded fuzz); UserInfo.AuthorizeDatabase / AuthorizeQuery for every user x database x privilege x statement; seeded grant/revoke sequences through Data.SetPrivilege; seeded random privilege worlds; thorough: a real ts-server with auth-enabled (black box). A case is non-trivial when the credential class is not the administrator; distinct by op line"
+	c.Stats.Rule = "exhaustive product: every live (method, pattern) of the real mux (hook VerifRoutes) in 5 server configurations, plus pre-mux paths, unregistered methods and near-miss paths, x every credential case (none / malformed / unknown user / wrong password / read-only / write-only / other-database / all-privileges / no-privilege / rwuser / administrator over basic, URL, Token and bearer transports, ~80 cases) x target database; /query x 75 statement texts (every statement kind) + ~190 mixed multi-statement / multi-source queries (explicit `db..m` / `ON db` parts next to unqualified ones, both orders) x request database; the real authenticate through a probe route (all cases + seeded fuzz); UserInfo.AuthorizeDatabase / AuthorizeQuery for every user x database x privilege x statement; seeded grant/revoke sequences through Data.SetPrivilege; seeded random privilege worlds; thorough: a real ts-server with auth-enabled (black box). A case is non-trivial when the credential class is not the administrator; distinct by op line"
 	thorough := c.Tier == "thorough"
 	rng := hx.NewRng(c.Seed)
 
@@ -355,8 +358,13 @@ func Run(c *hx.Ctx) error {
 	allPatterns := full.liveRoutes()
 
 	var stmts []*stmtDesc
-	for _, t := range statementTexts {
+	nPlain := len(statementTexts)
+	for i, t := range append(append([]string{}, statementTexts...), mixedStatementTexts()...) {
 		d, err := describe(t)
+		if err == nil && i >= nPlain {
+			d.mixed = true
+			c.Count("stmt-mixed")
+		}
 		if err != nil {
 			c.Count("stmt-skipped:" + t)
 			continue
@@ -429,6 +437,9 @@ func Run(c *hx.Ctx) error {
 					for _, cc := range cases {
 						if !thorough && cc.transport != "basic" && cc.transport != "bearer" && cc.class != "none" {
 							continue
+						}
+						if st.mixed && cc.transport != "basic" && cc.class != "none" {
+							continue // the mixed queries vary the user class, not the transport
 						}
 						e.routeOp(c, m, "/query", "/query", db, cc, st)
 					}
